@@ -564,3 +564,53 @@ func (la *LockAn) Accesses(f *types.Var) []FieldAccess {
 	}
 	return out
 }
+
+// OrderEdge records that lock To is acquired at Site while From is held.
+type OrderEdge struct {
+	From, To string
+	Site     ssa.Instruction
+}
+
+// LockOrder lists, for every blocking lock acquisition in the package, the
+// locks held at that moment (instance-insensitive identities).
+func (la *LockAn) LockOrder() []OrderEdge {
+	var out []OrderEdge
+	for _, fn := range la.Funcs {
+		for _, cl := range CallsIn(fn) {
+			if _, isCall := cl.(*ssa.Call); !isCall {
+				continue
+			}
+			op, ok := la.opOf(cl)
+			if !ok || (op.mode != 'W' && op.mode != 'R') {
+				continue
+			}
+			for h := range la.Held(cl) {
+				if h != op.id {
+					out = append(out, OrderEdge{h, op.id, cl})
+				}
+			}
+		}
+	}
+	return out
+}
+
+// OrderConflicts returns pairs of edges A→B, B→A.
+func OrderConflicts(es []OrderEdge) [][2]OrderEdge {
+	var out [][2]OrderEdge
+	seen := map[string]bool{}
+	for _, a := range es {
+		for _, b := range es {
+			if a.From == b.To && a.To == b.From {
+				k := a.From + "|" + a.To
+				if a.From > a.To {
+					k = a.To + "|" + a.From
+				}
+				if !seen[k] {
+					seen[k] = true
+					out = append(out, [2]OrderEdge{a, b})
+				}
+			}
+		}
+	}
+	return out
+}
